@@ -155,6 +155,11 @@ def run_tlc(module, cfg, workers=4, timeout=600, simulate=None, depth=None, dump
                (simulate and "Simulation" in out) or "Finished in" in out
     if hard and not r.violated:
         raise ToolError(f"TLC error in {module} {cfg}:\n" + out[-3000:])
+    if not simulate and not r.violated and not re.search(r"\d+ states generated", out):
+        # TLC ended without exploring anything and without a verdict (out of memory during Init, a constant the
+        # configuration does not assign, ...): never a pass
+        m3 = re.search(r"Error: .*", out)
+        raise ToolError(f"TLC explored no state in {module} {cfg}: {m3.group(0) if m3 else out[-600:]}")
     if hard and r.violated and "Error: The" in (hard.group(0)):
         pass
     r.ok = r.violated is None and finished
